@@ -304,106 +304,139 @@ func lenGtZero(cond ssa.Value) (operand ssa.Value, nonEmptySucc int, ok bool) {
 
 func c12Gate(w *World, r *Report) {
 	const rule = "C12/gate"
-	compile := w.Cmd.Func("Compile")
+	d := newDriver(w)
+	compile := d.compile
 	if compile == nil {
 		r.fatal("anchor unresolved: cmd.Compile")
 		return
 	}
-	// find the diagnostics test
-	var gateBlock *ssa.BasicBlock
-	gateSucc := 0
-	for _, b := range compile.Blocks {
-		cond := branchCond(b)
-		if cond == nil {
-			continue
-		}
-		op, ne, ok := lenGtZero(cond)
-		if !ok {
-			continue
-		}
-		if ld, ok := op.(*ssa.UnOp); ok {
-			if fa, ok := ld.X.(*ssa.FieldAddr); ok {
-				if tn, f, _, _ := fieldOf(fa); tn == "BinaryModel" && f == "SyntaxErrors" {
-					gateBlock, gateSucc = b, ne
-				}
-			}
+	// the diagnostics test: directly in Compile, or in a helper that returns a non-nil error exactly when there are diagnostics
+	var gateFn *ssa.Function
+	for _, fn := range d.sortedFns() {
+		if len(d.directGates(fn)) > 0 {
+			gateFn = fn
 		}
 	}
-	if gateBlock == nil {
-		r.fail(rule, "diagnostics test exists", w.pos(compile.Pos()), "cmd.Compile has no `len(binModel.SyntaxErrors) > 0` test")
+	if gateFn == nil {
+		r.fail(rule, "diagnostics test exists", w.pos(compile.Pos()), "neither cmd.Compile nor a helper it calls tests `len(binModel.SyntaxErrors)`")
 		return
 	}
-	r.pass(rule, "diagnostics test exists", w.instrPos(gateBlock.Instrs[len(gateBlock.Instrs)-1]), "")
-	// effects that must be behind the gate: dynamic generator calls, WriteCodeToFile, any file mutation, constructor calls
+	r.pass(rule, "diagnostics test exists", w.pos(gateFn.Pos()), fnKey(gateFn))
+	// effects that must be behind the gate: generator runs, constructor calls, file writes
 	n := 0
-	forEachInstr(compile, func(b *ssa.BasicBlock, ins ssa.Instruction) {
-		c, ok := ins.(ssa.CallInstruction)
-		if !ok {
-			return
-		}
-		cc := c.Common()
-		isGen := cc.StaticCallee() == nil && !cc.IsInvoke() && cc.Value != nil && func() bool {
-			_, isB := cc.Value.(*ssa.Builtin)
-			return !isB
-		}()
-		isInvokeGen := cc.IsInvoke() && cc.Method.Name() == "Generate"
-		isWrite := calleeIs(c, parserPath+".WriteCodeToFile") || isFileMutator(c) != ""
-		if !isGen && !isWrite && !isInvokeGen {
-			return
-		}
-		n++
-		what := "generator call"
-		if isWrite {
-			what = "file write"
-		}
-		key := fmt.Sprintf("%s#%d behind the gate", what, n)
-		if edgeDominates(gateBlock, 1-gateSucc, b) {
-			r.pass(rule, key, w.instrPos(ins), "")
-		} else {
-			r.fail(rule, key, w.instrPos(ins), what+" in cmd.Compile is not dominated by the no-diagnostics edge: code is generated / files are written although the DSL was rejected")
-		}
-	})
-	if n < 2 {
-		r.fail(rule, "effects found", w.pos(compile.Pos()), "expected a generator call and a file write in cmd.Compile")
+	cnt := map[string]int{}
+	for _, fn := range d.sortedFns() {
+		forEachInstr(fn, func(b *ssa.BasicBlock, ins ssa.Instruction) {
+			c, ok := ins.(ssa.CallInstruction)
+			if !ok {
+				return
+			}
+			cc := c.Common()
+			isGen := cc.StaticCallee() == nil && !cc.IsInvoke() && cc.Value != nil && func() bool {
+				_, isB := cc.Value.(*ssa.Builtin)
+				return !isB
+			}()
+			isInvokeGen := cc.IsInvoke() && cc.Method.Name() == "Generate"
+			if f := cc.StaticCallee(); f != nil && f.Pkg == w.Parser {
+				if f.Name() == "Generate" {
+					isInvokeGen = true
+				}
+				for _, g := range generators {
+					if f.Name() == g.Ctor {
+						isInvokeGen = true
+					}
+				}
+			}
+			isWrite := calleeIs(c, parserPath+".WriteCodeToFile") || isFileMutator(c) != ""
+			if !isGen && !isWrite && !isInvokeGen {
+				return
+			}
+			n++
+			what := "generator call"
+			if isWrite {
+				what = "file write"
+			}
+			kb := what + " in " + fnKey(fn)
+			cnt[kb]++
+			key := fmt.Sprintf("%s#%d behind the gate", kb, cnt[kb])
+			if d.gated(fn, b, 0) {
+				r.pass(rule, key, w.instrPos(ins), "")
+			} else {
+				r.fail(rule, key, w.instrPos(ins), what+" under cmd.Compile is not dominated by the no-diagnostics edge: code is generated / files are written although the DSL was rejected")
+			}
+		})
 	}
-	// the diagnostics edge returns a non-nil error
-	errRet := false
-	bad := false
-	for _, b := range compile.Blocks {
-		if !edgeDominates(gateBlock, gateSucc, b) {
-			continue
-		}
-		for _, ins := range b.Instrs {
-			if ret, ok := ins.(*ssa.Return); ok {
-				if len(ret.Results) == 1 && !isNilConst(ret.Results[0]) {
-					errRet = true
-				} else {
-					bad = true
+	if n < 2 {
+		r.fail(rule, "effects found", w.pos(compile.Pos()), "expected a generator call and a file write under cmd.Compile")
+	}
+	// the diagnostics edge returns a non-nil error all the way up
+	okErr := false
+	for _, g := range d.directGates(gateFn) {
+		errRet, bad := false, false
+		for _, b := range gateFn.Blocks {
+			if !edgeDominates(g.b, 1-g.empty, b) {
+				continue
+			}
+			if ret, ok := b.Instrs[len(b.Instrs)-1].(*ssa.Return); ok {
+				for _, rv := range ret.Results {
+					if !isErrorType(rv.Type()) {
+						continue
+					}
+					if isNilConst(rv) {
+						bad = true
+					} else {
+						errRet = true
+					}
 				}
 			}
 		}
-	}
-	if errRet && !bad {
-		r.pass(rule, "diagnostics edge returns an error", w.pos(compile.Pos()), "")
-	} else {
-		r.fail(rule, "diagnostics edge returns an error", w.pos(compile.Pos()), "with diagnostics present Compile can return nil (exit status 0)")
-	}
-	// ParseFile error returns before anything else
-	pcalls := callsTo(compile, parserPath+".ParseFile")
-	if len(pcalls) != 1 {
-		r.fail(rule, "ParseFile error returned", w.pos(compile.Pos()), "expected one ParseFile call")
-	} else {
-		pc := pcalls[0].(*ssa.Call)
-		var errV ssa.Value
-		for _, ref := range *pc.Referrers() {
-			if e, ok := ref.(*ssa.Extract); ok && e.Index == 1 {
-				errV = e
+		if !errRet || bad {
+			continue
+		}
+		if gateFn == compile {
+			okErr = true
+			continue
+		}
+		all := len(d.sites[gateFn]) > 0
+		for _, s := range d.sites[gateFn] {
+			if ev := errResultOf(s); ev == nil || !d.delivered(s.Parent(), ev, 0) {
+				all = false
 			}
 		}
-		if errV != nil && guardedByNil(gateBlock, errV, false) {
-			r.pass(rule, "ParseFile error returned", w.instrPos(pc), "")
+		okErr = all
+	}
+	if okErr {
+		r.pass(rule, "diagnostics edge returns an error", w.pos(gateFn.Pos()), "")
+	} else {
+		r.fail(rule, "diagnostics edge returns an error", w.pos(gateFn.Pos()), "with diagnostics present Compile can return nil (exit status 0)")
+	}
+	// ParseFile's error is returned before the model is inspected
+	var pcall ssa.CallInstruction
+	var pfn *ssa.Function
+	np := 0
+	for _, fn := range d.sortedFns() {
+		for _, c := range callsTo(fn, parserPath+".ParseFile") {
+			pcall, pfn = c, fn
+			np++
+		}
+	}
+	if np != 1 {
+		r.fail(rule, "ParseFile error returned", w.pos(compile.Pos()), fmt.Sprintf("expected one ParseFile call under cmd.Compile, found %d", np))
+	} else {
+		errV := errResultOf(pcall)
+		okP := errV != nil && d.delivered(pfn, errV, 0)
+		if okP && pfn == gateFn {
+			okP = false
+			for _, g := range d.directGates(gateFn) {
+				if guardedByNil(g.b, errV, false) {
+					okP = true
+				}
+			}
+		}
+		if okP {
+			r.pass(rule, "ParseFile error returned", w.instrPos(pcall), "")
 		} else {
-			r.fail(rule, "ParseFile error returned", w.instrPos(pc), "the model is inspected on a path where ParseFile returned an error")
+			r.fail(rule, "ParseFile error returned", w.instrPos(pcall), "ParseFile's error does not become Compile's error before the model is inspected")
 		}
 	}
 	// Execute: error -> os.Exit(non-zero)
